@@ -38,6 +38,7 @@ func (s gstate) String() string {
 
 // G is a registered goroutine
 type G struct {
+	kill     chan struct{} // closed at the end of the run: the goroutine leaves whatever it is blocked in and exits (deferred calls run, one goroutine at a time)
 	ID       int
 	Name     string
 	Gen      int // generation tag; 0 = harness
@@ -120,6 +121,7 @@ type Sched struct {
 	steps     int
 	switches  int
 	stop      bool
+	dead      bool // teardown has begun: every instrumented operation exits its goroutine
 	crash     *Crash
 	lastRun   *G
 	start     time.Time
@@ -210,6 +212,7 @@ func Run(t *testing.T, cfg Config, driver func()) (res Result) {
 		active.Store(s)
 		s.driver = s.spawn(nil, "driver", driver)
 		s.loop()
+		s.teardown()
 	})
 	return
 }
@@ -394,7 +397,7 @@ func allStacks() string {
 func (s *Sched) spawn(parent *G, name string, f func()) *G {
 	s.mu.Lock()
 	s.nextID++
-	g := &G{ID: s.nextID, Name: name, wake: make(chan struct{}), sched: s, site: "start"}
+	g := &G{ID: s.nextID, Name: name, wake: make(chan struct{}), kill: make(chan struct{}), sched: s, site: "start"}
 	if parent != nil {
 		g.Gen = parent.ChildGen
 		g.ChildGen = parent.ChildGen
@@ -404,11 +407,10 @@ func (s *Sched) spawn(parent *G, name string, f func()) *G {
 	s.gs = append(s.gs, g)
 	s.mu.Unlock()
 	go func() {
-		<-g.wake
 		defer func() {
 			r := recover()
 			s.mu.Lock()
-			if r != nil {
+			if r != nil && !s.dead {
 				if _, isKill := r.(killSentinel); !isKill && !g.frozen {
 					c := &Crash{G: g.Name, Gen: g.Gen, Value: fmt.Sprint(r), Stack: string(debug.Stack())}
 					if fe, ok := r.(FatalExit); ok {
@@ -434,9 +436,63 @@ func (s *Sched) spawn(parent *G, name string, f func()) *G {
 			}
 			s.mu.Unlock()
 		}()
+		select {
+		case <-g.wake:
+		case <-g.kill:
+			return
+		}
 		f()
 	}()
 	return g
+}
+
+// awaitTurn parks until the scheduler hands over the processor; at the end of the run it makes the goroutine exit instead
+func (g *G) awaitTurn() {
+	select {
+	case <-g.wake:
+	case <-g.kill:
+		runtime.Goexit()
+	}
+}
+
+// teardown ends every goroutine the run has left behind, one at a time and in creation order: each is released from
+// whatever it is blocked in and exits through runtime.Goexit, so its deferred calls run while nothing else does; every
+// instrumented operation such a deferred call attempts exits again at once. Without this the goroutines of a finished
+// bubble (and everything they reference - a whole agent with its buffers) stay in memory for the life of the process.
+func (s *Sched) teardown() {
+	s.mu.Lock()
+	s.dead = true
+	gs := append([]*G(nil), s.gs...)
+	s.mu.Unlock()
+	for _, g := range gs {
+		s.mu.Lock()
+		exited := g.state == gExited
+		s.mu.Unlock()
+		if exited {
+			continue
+		}
+		close(g.kill)
+		synctest.Wait()
+	}
+	// goroutines spawned by deferred calls meanwhile
+	for round := 0; round < 8; round++ {
+		s.mu.Lock()
+		var more []*G
+		for _, g := range s.gs[min(len(gs), len(s.gs)):] {
+			if g.state != gExited {
+				more = append(more, g)
+			}
+		}
+		gs = append([]*G(nil), s.gs...)
+		s.mu.Unlock()
+		if len(more) == 0 {
+			return
+		}
+		for _, g := range more {
+			close(g.kill)
+			synctest.Wait()
+		}
+	}
 }
 
 type killSentinel struct{}
@@ -536,7 +592,8 @@ func parkForever(g *G) {
 	case s.notify <- struct{}{}:
 	default:
 	}
-	<-make(chan struct{})
+	<-g.kill
+	runtime.Goexit()
 }
 
 // Yield is an explicit scheduling point
@@ -549,10 +606,14 @@ func Yield(site string) {
 func yieldG(g *G, site string) {
 	s := g.sched
 	s.mu.Lock()
+	if s.dead {
+		s.mu.Unlock()
+		runtime.Goexit()
+	}
 	g.site = site
 	g.state = gParked
 	s.mu.Unlock()
-	<-g.wake
+	g.awaitTurn()
 	if g.frozen {
 		parkForever(g)
 	}
@@ -577,7 +638,7 @@ func unblock(g *G) {
 	case s.notify <- struct{}{}:
 	default:
 	}
-	<-g.wake
+	g.awaitTurn()
 	if g.frozen {
 		parkForever(g)
 	}
